@@ -292,7 +292,8 @@ def main(prop, level, case_fn, tiers, rule, assumptions=(), setup_fn=None, requi
     t0 = time.time()
     nshards = max(1, min(int(tierconf.get("shards", 4)), tierconf["cases"]))
     maxpar = min(nshards, int(os.environ.get("VERIF_JOBS", os.cpu_count() or 4)))
-    workdir = os.path.join(env.WORK, f"{prop}-{args.tier}-{os.getpid()}")
+    runroot = os.path.join(env.WORK, f"run-{prop}-{args.tier}-{os.getpid()}")   # private scratch root of this run (children: env.WORK)
+    workdir = os.path.join(runroot, "shards")
     os.makedirs(workdir, exist_ok=True)
     hard = tierconf.get("time", 600) * 2.5 + 300
     pending = list(range(nshards))
@@ -302,6 +303,7 @@ def main(prop, level, case_fn, tiers, rule, assumptions=(), setup_fn=None, requi
     childenv = dict(os.environ)
     childenv["PYTHONHASHSEED"] = "0"
     childenv["VERIF_REPO"] = env.REPO
+    childenv["VERIF_WORK"] = runroot
     while pending or running:
         while pending and len(running) < maxpar:
             sh = pending.pop(0)
@@ -425,9 +427,7 @@ def main(prop, level, case_fn, tiers, rule, assumptions=(), setup_fn=None, requi
     try:
         import shutil
         import glob
-        shutil.rmtree(workdir, ignore_errors=True)
-        for d in glob.glob(os.path.join(env.WORK, f"cwd-{prop}-*")) + glob.glob(os.path.join(env.WORK, f"{prop.lower()}-*")):
-            shutil.rmtree(d, ignore_errors=True)
+        shutil.rmtree(runroot, ignore_errors=True)   # only this run's scratch (a concurrent run of the same check has its own root)
     except Exception:
         pass
 
